@@ -202,10 +202,21 @@ def readsBack (N : Int) : Num → Rat
     | .ok t => if t.contains '.' then Num.floatToRat (Num.ratToFloat v) else v
     | .error _ => v
 
-/-- `"{:.17g}".format(x)` for a float bound, `stringify_result(x)` for an exact one: the second rendering of an interval's
-    bounds (interpret.py, interval branch of `stringify_result`, since fix d33389f) -/
+/-- `"{:.16e}".format(x)`: 17 significant digits, always `d.dddddddddddddddd` and an exponent — a text with a decimal point, which the
+    tokeniser reads back as the float (fix a02f165; `{:.17g}` printed the float nearest to 2e-12 as `2e-12`, read back exactly) -/
+def fmtE16 (x : Float) : Text :=
+  if x.isNaN then "nan".toList
+  else if x.isInf then (if signBit x then "-inf".toList else "inf".toList)
+  else if x == 0 then (if signBit x then "-0.0000000000000000e+00".toList else "0.0000000000000000e+00".toList)
+  else
+    let q := Num.floatToRat x
+    let (m, e) := sigDigits 17 (if q < 0 then -q else q)
+    (if q < 0 then ['-'] else []) ++ layoutExp (natText m) e
+
+/-- `"{:.16e}".format(x)` for a float bound, `stringify_result(x)` for an exact one: the second rendering of an interval's
+    bounds (interpret.py, interval branch of `stringify_result`, fixes d33389f / a02f165) -/
 def stringifyNumFull (N : Int) : Num → Except Err Text
-  | .flt x => fmtG 17 x
+  | .flt x => .ok (fmtE16 x)
   | n => match n with
     | .int k => .ok (intText k)
     | .frac q => .ok (fracText q)
